@@ -67,9 +67,7 @@ def check_case(ct, case, seed):
                     raised = type(e).__name__ + ": " + str(e)[:80]
                 key = "%s:%s:%s" % (name, a["layout"], tag(g))
                 if case["pol"] == "UNDEF":
-                    if raised is None:
-                        out.append((key + ":not-rejected", "%s on %s with %s returned shape %s although no window fits" % (name, xs, g, np.shape(got))))
-                    continue
+                    continue      # C16 speaks about geometries with a non-empty output only
                 if raised is not None:
                     out.append((key + ":raised", "%s on %s with %s raised %s" % (name, xs, kw, raised)))
                     continue
